@@ -43,9 +43,9 @@ Proofs/StoreCallbacks.vos Proofs/StoreCallbacks.vok Proofs/StoreCallbacks.requir
 Proofs/Discipline.vo Proofs/Discipline.glob Proofs/Discipline.v.beautified Proofs/Discipline.required_vo: Proofs/Discipline.v Model/Mon.vo Proofs/StoreLocks.vo Proofs/StorePromises.vo
 Proofs/Discipline.vio: Proofs/Discipline.v Model/Mon.vio Proofs/StoreLocks.vio Proofs/StorePromises.vio
 Proofs/Discipline.vos Proofs/Discipline.vok Proofs/Discipline.required_vos: Proofs/Discipline.v Model/Mon.vos Proofs/StoreLocks.vos Proofs/StorePromises.vos
-Proofs/SysInv.vo Proofs/SysInv.glob Proofs/SysInv.v.beautified Proofs/SysInv.required_vo: Proofs/SysInv.v Model/Mon.vo Proofs/StoreLocks.vo Proofs/StorePromises.vo Proofs/Discipline.vo
-Proofs/SysInv.vio: Proofs/SysInv.v Model/Mon.vio Proofs/StoreLocks.vio Proofs/StorePromises.vio Proofs/Discipline.vio
-Proofs/SysInv.vos Proofs/SysInv.vok Proofs/SysInv.required_vos: Proofs/SysInv.v Model/Mon.vos Proofs/StoreLocks.vos Proofs/StorePromises.vos Proofs/Discipline.vos
+Proofs/SysInv.vo Proofs/SysInv.glob Proofs/SysInv.v.beautified Proofs/SysInv.required_vo: Proofs/SysInv.v Model/Mon.vo Proofs/StoreLocks.vo Proofs/StorePromises.vo Proofs/StoreCallbacks.vo Proofs/Discipline.vo
+Proofs/SysInv.vio: Proofs/SysInv.v Model/Mon.vio Proofs/StoreLocks.vio Proofs/StorePromises.vio Proofs/StoreCallbacks.vio Proofs/Discipline.vio
+Proofs/SysInv.vos Proofs/SysInv.vok Proofs/SysInv.required_vos: Proofs/SysInv.v Model/Mon.vos Proofs/StoreLocks.vos Proofs/StorePromises.vos Proofs/StoreCallbacks.vos Proofs/Discipline.vos
 Proofs/Eqb.vo Proofs/Eqb.glob Proofs/Eqb.v.beautified Proofs/Eqb.required_vo: Proofs/Eqb.v Model/Mon.vo
 Proofs/Eqb.vio: Proofs/Eqb.v Model/Mon.vio
 Proofs/Eqb.vos Proofs/Eqb.vok Proofs/Eqb.required_vos: Proofs/Eqb.v Model/Mon.vos
